@@ -84,19 +84,27 @@ func (m *Exporter) OnFault(w *engine.World, f engine.Fault) {
 }
 
 var (
-	reHex  = regexp.MustCompile(`[0-9A-Fa-f]{16,}`)
-	reAddr = regexp.MustCompile(`cosmos1[0-9a-z]{20,}`)
-	reNum  = regexp.MustCompile(`[0-9]+`)
+	reHex   = regexp.MustCompile(`[0-9A-Fa-f]{16,}`)
+	reAddr  = regexp.MustCompile(`cosmos1[0-9a-z]{20,}`)
+	reNum   = regexp.MustCompile(`[0-9]+`)
+	reDenom = regexp.MustCompile(`\bhtlt[a-z]+\b|\bibc/HEX\b`)
 )
 
 // shape reduces an error text to its class: identifiers and numbers removed.
 func shape(s string) string {
+	// wrapped errors carry a source position, panics a prefix: neither belongs to the class
+	if i := strings.Index(s, " ["); i > 0 {
+		s = s[:i]
+	}
+	s = strings.TrimPrefix(s, "panic in InitChain: ")
+	s = strings.TrimPrefix(s, "panic in InitGenesis: ")
 	s = reAddr.ReplaceAllString(s, "ADDR")
 	s = reHex.ReplaceAllString(s, "HEX")
 	s = reNum.ReplaceAllString(s, "N")
 	s = strings.Join(strings.Fields(s), " ")
-	if len(s) > 70 {
-		s = s[:70]
+	s = reDenom.ReplaceAllString(s, "DENOM")
+	if len(s) > 60 {
+		s = s[:60]
 	}
 	return s
 }
